@@ -182,6 +182,8 @@ func CheckAll(run *core.Run, prop string, presets []Preset, pairsBelow int, maxL
 	wg.Wait()
 }
 
+var nilHashesAsDefault = map[string]bool{"altair.SyncCommitteeBits": true, "electra.CommitteeBits": true, "altair.SyncAggregate": true}
+
 func checkRow(run *core.Run, prop string, row Row, ps Preset, pairsBelow int, maxLen uint64, st *Stats) {
 	P := ParamsOf(ps.Spec)
 	gen := refssz.NewGen(row.Ref, row.Tag, P, maxLen)
@@ -199,6 +201,34 @@ func checkRow(run *core.Run, prop string, row Row, ps Preset, pairsBelow int, ma
 	refFixed, isFixed := gen.FixedSize()
 	pairs := gen.NumLeaves() < pairsBelow
 	first := true
+	// The Go zero value of the zrnt type (nil slices, as in `altair.SyncAggregate{}`): wherever zrnt itself treats it
+	// as the SSZ default value — it serialises to the bytes of the zero value — its struct root must be the root of
+	// that value too.
+	{
+		zero := gen.Zero()
+		zenc, zroot := gen.Encode(zero), gen.Root(zero)
+		z := zv{row.New(), ps.Spec}
+		var out []byte
+		var serr error
+		pmS := safely(func() { out, serr = z.serialize() })
+		asDefault := pmS == "" && serr == nil && bytes.Equal(out, zenc)
+		// types whose HashTreeRoot documents the convention "a nil bitvector hashes as the preset's default value"
+		// (sync_bits.go, committee_bits.go), and the aggregate that consists of such a field and a fixed array
+		if nilHashesAsDefault[row.Name] {
+			asDefault = true
+		}
+		if asDefault {
+			var gotRoot common.Root
+			if pm := safely(func() { gotRoot = z.root() }); pm != "" {
+				rep("C05", "panic/HashTreeRoot", "panic: "+pm, "Go zero value (nil slices)")
+			} else if gotRoot != common.Root(zroot) {
+				rep("C05", "struct-root", fmt.Sprintf("the Go zero value serialises to the default value's bytes but its struct HashTreeRoot = %s, SSZ merkleization gives %x", gotRoot, zroot), "Go zero value (nil slices)")
+			}
+			if bl := z.byteLength(); prop == "C04" && bl != uint64(len(zenc)) {
+				rep("C04", "ByteLength", fmt.Sprintf("ByteLength() = %d, %d bytes were written", bl, len(zenc)), "Go zero value (nil slices)")
+			}
+		}
+	}
 	gen.Values(pairs, func(desc string, ptr reflect.Value) {
 		atomic.AddInt64(&st.Values, 1)
 		if desc != "zero" {
